@@ -1,0 +1,75 @@
+//go:build verif
+
+// Package verifhook marks points where the verification harness may perturb the schedule.
+// With the "verif" build tag Yield perturbs the calling goroutine pseudo-randomly (nothing,
+// runtime.Gosched, or a short sleep), as a pure function of the configured seed, the site name
+// and the number of times the site was reached, and counts how often each site was reached.
+package verifhook
+
+import (
+	"hash/fnv"
+	"runtime"
+	"sync"
+	"sync/atomic"
+	"time"
+)
+
+var (
+	seed    atomic.Uint64 // 0 = perturbation off (sites are still counted)
+	mu      sync.Mutex
+	reached = map[string]*atomic.Int64{}
+)
+
+// Configure sets the perturbation seed (0 switches perturbation off) and clears the counters.
+func Configure(s uint64) {
+	seed.Store(s)
+	mu.Lock()
+	reached = map[string]*atomic.Int64{}
+	mu.Unlock()
+}
+
+// Sites returns how often each site was reached since the last Configure.
+func Sites() map[string]int64 {
+	mu.Lock()
+	defer mu.Unlock()
+	out := make(map[string]int64, len(reached))
+	for k, v := range reached {
+		out[k] = v.Load()
+	}
+	return out
+}
+
+func counter(site string) *atomic.Int64 {
+	mu.Lock()
+	c := reached[site]
+	if c == nil {
+		c = new(atomic.Int64)
+		reached[site] = c
+	}
+	mu.Unlock()
+	return c
+}
+
+// Yield marks a schedule point.
+func Yield(site string) {
+	n := counter(site).Add(1)
+	s := seed.Load()
+	if s == 0 {
+		return
+	}
+	h := fnv.New64a()
+	var b [16]byte
+	for i := 0; i < 8; i++ {
+		b[i] = byte(s >> (8 * i))
+		b[8+i] = byte(uint64(n) >> (8 * i))
+	}
+	h.Write(b[:])
+	h.Write([]byte(site))
+	x := h.Sum64()
+	switch x % 16 {
+	case 0, 1, 2:
+		runtime.Gosched()
+	case 3:
+		time.Sleep(time.Duration(50+(x>>8)%450) * time.Microsecond)
+	}
+}
